@@ -117,3 +117,58 @@ def register(db):
                        modifies=[f"{Q}.processing", f"{Q}.simple", f"{Q}.delayed"])],
         modifies=[f"{Q}.processing", f"{Q}.simple", f"{Q}.delayed"],
     )
+
+
+# ---------------------------------------------------------------------------------------------------------------
+# C14 / C01 under interference: the single-copy invariant of one in-memory queue.  Every operation is verified a second
+# time (variant 'interference') with NO assumption about what it holds: at each of its awaits other tasks may change
+# the queue arbitrarily as long as they keep the invariant (rely), and the operation must keep it at every await and on
+# return (guarantee).  By induction over the schedule the invariant holds in every reachable state of every
+# interleaving of these operations: a message is never in two places, in particular never both waiting and held,
+# and never waiting twice - so it cannot be handed to a second consumer while the first one still holds it.
+def single_copy(q, old=False):
+    w = (lambda e: f"old({e})") if old else (lambda e: e)  # noqa: E731
+    S, P, X, D = w(f"{q}.simple"), w(f"{q}.processing"), w(f"{q}.dead"), w(f"{q}.delayed")
+    nodup = lambda s: (f"forall_int(i, forall_int(j, implies(0 <= i and i < j and j < len({s}), at({s}, i) != at({s}, j))))")  # noqa: E731
+    return {
+        "waiting_once": nodup(S),
+        "dead_once": nodup(X),
+        "held_not_waiting": f"forall_int(i, implies(0 <= i and i < len({S}), at({S}, i) not in {P}))",
+        "held_not_dead": f"forall_int(i, implies(0 <= i and i < len({X}), at({X}, i) not in {P}))",
+        "waiting_not_dead": f"forall_int(i, forall_int(j, implies(0 <= i and i < len({S}) and 0 <= j and j < len({X}),"
+                            f" at({S}, i) != at({X}, j))))",
+        # delayed[T] lists: a delayed message is nowhere else, and in one delayed slot only
+        "delayed_not_held": f"forall(T, 'datetime', forall_int(i, implies(T in {D} and 0 <= i and i < len({D}[T]),"
+                            f" at({D}[T], i) not in {P})))",
+        "delayed_not_waiting_or_dead": f"forall(T, 'datetime', forall_int(i, forall_int(j, implies(T in {D} and 0 <= i and i < len({D}[T]),"
+                                       f" implies(0 <= j and j < len({S}), at({D}[T], i) != at({S}, j))"
+                                       f" and implies(0 <= j and j < len({X}), at({D}[T], i) != at({X}, j))))))",
+        "delayed_once": f"forall(T, 'datetime', forall(U, 'datetime', forall_int(i, forall_int(j, implies(T in {D} and U in {D}"
+                        f" and 0 <= i and i < len({D}[T]) and 0 <= j and j < len({D}[U]) and (T != U or i != j),"
+                        f" at({D}[T], i) != at({D}[U], j))))))",
+    }
+
+
+def finalize(db):
+    inv = single_copy(Q)
+    inv_local = single_copy("q")
+    shared = [f"{Q}.simple", f"{Q}.processing", f"{Q}.dead", f"{Q}.delayed"]
+    for op in ("ack", "nack", "reject", "enqueue", "requeue"):
+        c = db.contracts[B + op]
+        loop = {0: LoopInv(header="for msg in q.processing", invariant=dict(inv_local), ghost={"visited": "seen"})} \
+            if op not in ("enqueue", "requeue") else {}
+        c.variants = {
+            "sequential": {},
+            "interference": {"__override__": dict(
+                serves=["C14"], seq_lemmas=True,
+                requires=["key.queue in self.queues"] + list(inv.values())
+                         + (["params is not None", "P_next_ok(params)"] if op in ("enqueue", "requeue") else []),
+                ghost_init={}, fresh={}, ensures={f"single_copy:{k}": v for k, v in inv.items()},
+                yield_inv={f"single_copy:{k}": v for k, v in inv.items()},
+                shared=shared, rely=list(inv.values()), cancel_at_yield=True,
+                modifies=shared,     # other tasks act on the queue during the awaits: the frame is the whole queue
+                raises=[Raises(r.exc, mode=r.mode, when=r.when, ensures={f"single_copy:{k}": v for k, v in inv.items()}, modifies=shared)
+                        for r in c.raises if r.exc != "CancelledError"]
+                       + [Raises("CancelledError", mode="may", ensures={f"single_copy:{k}": v for k, v in inv.items()}, modifies=shared)],
+                loops=loop, covers={"something_moved_or_removed": f"{Q}.processing != old({Q}.processing)"} if op not in ("enqueue",) else {})},
+        }
